@@ -51,6 +51,13 @@ def gen_program(rnd):
 
     for _ in range(rnd.randint(1, 8)):
         k = rnd.random()
+        if two_d and rnd.random() < 0.15:
+            # the flattened view, taken between accesses (and possibly more than once): it is a copy, the array is what it was
+            kinds.add("joined-between-accesses")
+            lines.append("J%d = A.joined()" % nres)
+            lines.append("r%d = len(J%d) + len(A.joined()) + J%d[%d] + 0" % (nres, nres, nres, rnd.randint(0, shape[0] * shape[1] - 1)))
+            nres += 1
+            continue
         if two_d:
             if k < 0.3:
                 lines.append("r%d = A[%s, %s] + 0" % (nres, index(0), index(1)))
